@@ -109,7 +109,12 @@ func (r *run) scenario(x *vs.X) func(end, msg string) error {
 	log = zap.New(fatalCore{}, zap.WithFatalHook(exitHook{w}))
 	x.Deadline = w.T0.Add(10 * time.Minute)
 	vs.Go("main", func() { Main(w, eng, log) })
-	if c.Signal != "none" {
+	if c.Signal != "none" && c.FailMs > 0 && len(c.SignalMs) == 0 {
+		w.WindowSignal = syscall.SIGINT
+		if c.Signal == "TERM" {
+			w.WindowSignal = syscall.SIGTERM
+		}
+	} else if c.Signal != "none" {
 		sig := syscall.SIGINT
 		if c.Signal == "TERM" {
 			sig = syscall.SIGTERM
@@ -242,6 +247,12 @@ func cells(thorough bool) []Cell {
 				ms = nil
 			}
 			out = append(out, Cell{Signal: sig, SignalMs: ms, Instances: 1, Items: -1, RPS: "const", ShotMs: shot, Queue: 64, Bound: 1, FailMs: 700})
+			if sig != "none" && shot > 0 {
+				// no signaller thread: the signal is an environment choice at the moment the stop cuts a shot short
+				for _, inst := range []int{1, 2} {
+					out = append(out, Cell{Signal: sig, Instances: inst, Items: -1, RPS: "const", ShotMs: shot, Queue: 64, Bound: 1, FailMs: 700})
+				}
+			}
 		}
 	}
 	// normal end of a pool whose instances are still being started when the ammo runs out, with shots in flight
